@@ -11,7 +11,8 @@
 //   anything else / failure                     -> ERR <message on one line>
 // alg: exc | excc | inc | incc
 // selector: "-" (document element subtree) | "doc" (whole document node, includes
-//   comments/PIs outside the document element) | "id=<v>" (element whose no-namespace
+//   comments/PIs outside the document element; refused with ERR when the document element
+//   has no child node, because the JDK canonicaliser then drops what follows it) | "id=<v>" (element whose no-namespace
 //   attribute Id/ID/id equals v, first in document order) | "path=/i/j/k" (child-ELEMENT
 //   indexes from the document element; "path=/" or "path=" is the document element).
 //
@@ -153,6 +154,11 @@ public class RefServer {
         if (sel.equals("-")) {
             return root;
         } else if (sel.equals("doc")) {
+            if (root.getFirstChild() == null) {
+                // JDK quirk: CanonicalizerBase.canonicalizeSubTree stops after a childless
+                // document element and silently drops the comments/PIs that follow it
+                throw new Exception("doc selector unsupported: empty document element");
+            }
             return doc;
         } else if (sel.startsWith("id=")) {
             Element e = findById(root, sel.substring(3));
